@@ -157,7 +157,7 @@ theorem body_fee_plain (fs : List (Nat × Nat)) (hf : ∀ p ∈ fs, p.1 < 2^40)
     intro p hp
     have h40 := hf p hp
     simp only [Function.comp_apply, packFee]
-    omega
+    rw [Nat.add_comm, Nat.add_mul_mod_self_right, Nat.mod_eq_of_lt h40]
   rw [this]
   exact Nat.min_eq_left (Nat.le_sub_one_of_lt hsum)
 
